@@ -261,6 +261,7 @@ static void do_kdf(int gen, const u8* pw, size_t pwlen, const u8* salt, size_t s
         e.out.resize(kl);
         kdf_stream(e.a, e.b, iter, e.out.data(), kl);
         if (key) memcpy(key, e.out.data(), kl);
+        E.watch_armed = true;
     });
 }
 
@@ -419,7 +420,7 @@ void monitor_access(const void* addr, unsigned size, bool store) {
     Task* t = tls_task;
     if (!t || (!E.monitor && !E.watch_p)) return;
     const u8* b = (const u8*)addr;
-    if (E.watch_p && b + size > E.watch_p && b < E.watch_p + E.watch_n) E.watch_hits++;
+    if (E.watch_p && E.watch_armed && b + size > E.watch_p && b < E.watch_p + E.watch_n) E.watch_hits++;   // "afterwards": only once the KDF has written the key
     if (!E.monitor) return;
     if (b >= t->stack_lo && b < t->stack_lo + t->stack_size) return;
     E.mon_accesses++;
@@ -499,6 +500,12 @@ void sim_fb_arc4random_buf(void* b, size_t n) { do_forbidden("arc4random_buf"); 
 long sim_fb_clock(void) { do_forbidden("clock"); return 0; }
 int sim_fb_clock_gettime(int, struct timespec* ts) { do_forbidden("clock_gettime"); if (ts) { ts->tv_sec = 0; ts->tv_nsec = 0; } return 0; }
 int sim_fb_gettimeofday(void* tv, void*) { do_forbidden("gettimeofday"); if (tv) memset(tv, 0, 16); return 0; }
+void* sim_fb_fopen(const char* p, const char*) { do_forbidden(p && strstr(p, "random") ? "fopen(/dev/*random)" : "fopen"); return nullptr; }
+int sim_fb_open(const char* p, int, ...) { do_forbidden(p && strstr(p, "random") ? "open(/dev/*random)" : "open"); return -1; }
+long sim_fb_read(int, void*, size_t) { do_forbidden("read"); return -1; }
+size_t sim_fb_fread(void*, size_t, size_t, void*) { do_forbidden("fread"); return 0; }
+char* sim_fb_getenv(const char*) { do_forbidden("getenv"); return nullptr; }
+int sim_fb_getpid(void) { do_forbidden("getpid"); return 4; }
 int sim_fb_timespec_get(struct timespec* ts, int b) { do_forbidden("timespec_get"); if (ts) { ts->tv_sec = 0; ts->tv_nsec = 0; } return b; }
 
 // memory/string functions called by the library: report the touched ranges to the access monitor
